@@ -81,7 +81,7 @@ func TestC23(t *testing.T) {
 
 	g := newRig()
 
-	ncases := r.N(300, 5000)
+	ncases := r.N(300, 3500)
 	r.WithWatchdog(time.Duration(r.N(15, 90))*time.Minute, "C23 workload", func() { run(r, g, ncases) })
 
 	if r.Counter("ops_visited") == 0 || r.Counter("lookup_expected_found") == 0 {
